@@ -14,14 +14,16 @@
       unspent map: CommitBlock's tip extension (`replay_inv_extend`), UndoLastBlock (`replay_inv_undoLast`, incl.
       "does not panic"), the disconnect loop of MoveToBlock (`failed_reorg_no_residue_partial`), one successful
       iteration of ParseTillBlock (`replay_inv_connect`); DeleteBranch does not touch map / undo files / tip
-      (`deleteBranch_keeps_map`);
+      (`deleteBranch_keeps_map`); and for the model's actual `deliver`: `reorg_inv_partial` — the invariant holds after
+      EVERY fork-free delivery sequence (each block on the then-current tip: accepted, rejected as invalid, or duplicate);
     * decision logic of deliveries (known block, orphan, extension accepted / rejected), exactness/asymmetry of the
       work comparison, and the counterexample showing that the tie-break after a failed reorganisation is NOT
       "first seen" (known finding, reproduced on the real code).
 
   -- OPEN: reorg_inv : ∀ deliveries, Inv (run deliveries)  with
   --   Inv c := (∃ fl path, PathOK c fl path) ∧ tip is a maximum-work valid leaf (first seen among equals)
-  --   What is missing for the first conjunct: the composition of the proved steps through the mutual recursion
+  --   Proved: `reorg_inv_partial` (fork-free histories) + the step theorems below.
+  --   What is missing for the first conjunct: deliveries on side branches, i.e. the composition of the proved steps through the mutual recursion
   --   moveTo / parseTill / afterFail inside `deliver` — it needs tree well-formedness (unique ids, child height =
   --   parent height + 1, childs ↔ parent consistency) to show (a) that FindPathTo's next block hangs below the tip at
   --   height LastBlockHeight+1, (b) that the path ids differ from the common block / from a new block's id,
@@ -238,6 +240,24 @@ theorem failed_reorg_no_residue_partial (f : Nat) (c : Chain) (fl : Nat) (pre po
   obtain ⟨c1, hp, hn, hs, _, hm⟩ := moveTo_unwind f c fl pre post dst d lb cur lb2 anc h hfl hd hlb h1 h2 h3 hanc hne hh
   exact ⟨c1, hp, hn, hs, hm⟩
 
+/-- **reorg_inv for fork-free histories** (proved part of reorg_inv, about the model's actual `deliver`). For every
+sequence of deliveries in which each block names the then-current tip as its parent and re-uses no txid still in the map
+(BIP30) — whether the block is then accepted, rejected as invalid by `commitTxs` (any of its error kinds) or refused as a
+duplicate — the state after the whole sequence satisfies the invariant for some active branch: the unspent map equals the
+replay of that branch from the empty map, tip / LastBlockHeight / tree links / stored blocks are consistent with it, every
+undo file above the floor holds the undo data of the active block at that height, and the tip node's height is the
+branch length. Missing for the full reorg_inv: deliveries on side branches (stored aside, or triggering MoveToBlock),
+see the OPEN note at the top. -/
+theorem reorg_inv_partial (r bits : Nat) (bs : List Block) (h : OnTip (ChainTree.init r bits) bs) :
+    ∃ fl path, PathOKH (bs.foldl (fun c b => (deliver c b).1) (ChainTree.init r bits)) fl path :=
+  deliver_all_on_tip bs _ 0 [] (init_pathH r bits) h
+
+/-- One delivery on the tip keeps the invariant, whatever the outcome (accepted / rejected / duplicate). -/
+theorem replay_inv_deliver_on_tip (c : Chain) (fl : Nat) (path : List PE) (h : PathOKH c fl path) (b : Block)
+    (hpar : b.parent = c.tip) (hfresh : ∀ t ∈ b.txs.map (·.txid), c.utxo.get t = none) :
+    ∃ fl' path', PathOKH (deliver c b).1 fl' path' :=
+  deliver_on_tip c fl path h b hpar hfresh
+
 /-- DeleteBranch (a block that fails when connected, with its descendants) touches neither the unspent map nor the
 undo files, the tip or LastBlockHeight. -/
 theorem deleteBranch_keeps_map (c : Chain) (id : Nat) :
@@ -382,5 +402,15 @@ example : PathOK rxChain0 0 [] ∧ ∃ (last en nxt : Node) (blk : Stored) (ch :
     (∀ t ∈ blk.txs.map (·.txid), rxChain0.utxo.get t = none) :=
   ⟨⟨rfl, rfl, trivial, ⟨[], rfl, fun _ => rfl⟩, trivial, trivial⟩,
    _, _, _, _, _, by decide, rfl, rfl, rfl, rfl, by decide, rfl, rfl, by decide, rfl, rfl, fun _ _ => rfl⟩
+
+
+-- reorg_inv_partial: a fork-free history with an accepted and a rejected (no coinbase) delivery
+example : OnTip (ChainTree.init 100 easyBits)
+    [{ id := 1, parent := 100, bits := easyBits, txs := [cbTx 1001] },
+     { id := 2, parent := 1, bits := easyBits, txs := [] },
+     { id := 3, parent := 1, bits := easyBits, txs := [cbTx 1003] }] := by
+  refine ⟨rfl, fun _ _ => rfl, by decide, ?_, by decide, ?_, trivial⟩
+  · intro t ht; simp only [List.map_nil, List.not_mem_nil] at ht
+  · decide
 
 end GocoinV.Props.C06
